@@ -302,6 +302,13 @@ def extract(repo):
         # uint32_t output arrays are truncated on store
         if key == "interleave_out":
             f.prog = [(dst, "(.and %s (.const 0xffffffff))" % e if 2 <= dst < 6 else e) for dst, e in f.prog]
+        # every local register must be written before it is read (C locals are uninitialised)
+        written = set(range(layout["nparam"]))
+        for dst, ex in f.prog:
+            for r in re.findall(r"\(\.reg (\d+)\)", ex):
+                if int(r) not in written:
+                    raise TranslateError("%s: local register %s read before it is assigned" % (cname, r))
+            written.add(dst)
         d[key] = dict(prog=f.prog, nreg=f.nreg, cname=cname)
     m = re.search(r"static\s+const\s+unsigned\s+char\s+Rcon\s*\[\s*\]\s*=\s*\{([^}]*)\}\s*;", src)
     if not m:
